@@ -347,8 +347,9 @@ impl ChannelManager {
     let mut channel_inner = channel.0.write().await;
 
     // Check if the channel was removed while we were waiting for the lock.
-    // This can happen if the last member left, triggering channel removal.
-    if !channels.contains_key(&handler) {
+    // This can happen if the last member left, triggering channel removal. A channel of the same
+    // name created meanwhile is a different channel: the map must still hold the very one we locked.
+    if !channels.get(&handler).is_some_and(|kv| Arc::ptr_eq(&kv.value().0, &channel.0)) {
       return Err(
         narwhal_protocol::Error::new(ResourceConflict)
           .with_id(correlation_id)
